@@ -9,7 +9,8 @@ B1 == {<<>>, <<"x">>, <<"]">>, <<"]", "]", ">">>, <<"]", "]", ">", "]", "]">>, <
 B2 == {<<"x">>, <<"]", "]", ">">>, <<">", "]">>}
 (* "X" is one symbol of 70 000 bytes: a message far larger than any read buffer, TLS record or SSH packet *)
 BBig == {<<"X">>, <<"X", "]", "]", ">", "X">>, <<"]", "X", "]">>}
-SubsetsUpTo(S, n) == {c \in SUBSET S : Cardinality(c) <= n}
+(* subsets with at most n <= 2 elements, built directly (SUBSET S would enumerate 2^|S| sets) *)
+SubsetsUpTo(S, n) == {{}} \cup {{x} : x \in S} \cup (IF n >= 2 THEN {{x, y} : x \in S, y \in S} ELSE {})
 Len1(b) == Len(Msg2(b))
 RECURSIVE SetToSeq(_)
 SetToSeq(S) == IF S = {} THEN <<>> ELSE LET x == CHOOSE y \in S : \A z \in S : y <= z IN <<x>> \o SetToSeq(S \ {x})
